@@ -48,15 +48,16 @@ class BaseHandler(BaseRequestHandler):
         :param msg_body: the custom command message without the custom header
             and tail (`$` and `%%%%%` respectively)
         :type msg_body: string"""
-        if ':' in msg_body:
-            name, params_str = msg_body.split(':')
-        else:
-            name, params_str = msg_body, ''
-        if params_str:
-            params = params_str.split(',')
-        else:
-            params = ()
+        name = msg_body
         try:
+            if ':' in msg_body:
+                name, params_str = msg_body.split(':')
+            else:
+                name, params_str = msg_body, ''
+            if params_str:
+                params = params_str.split(',')
+            else:
+                params = ()
             response = getattr(self.system, name)(*params)
             if isinstance(response, str):
                 self.socket.sendto(
